@@ -137,6 +137,7 @@ package filters
 //@     step group_padded_to_five: !wsByte(data[prev(i)]) && data[prev(i)] != 'z' ==> len(digits) == 5
 //@     step group_size: !wsByte(data[prev(i)]) && data[prev(i)] != 'z' ==> 1 <= nonWS(data, prev(i), i - prev(i)) && nonWS(data, prev(i), i - prev(i)) <= 5 && numBytes == min(nonWS(data, prev(i), i - prev(i)) - 1, 4)
 //@     step group_digits_from_data: !wsByte(data[prev(i)]) && data[prev(i)] != 'z' && noWSIn(data, prev(i), i) ==> forall m int :: {digits[m]} 0 <= m && m < i - prev(i) ==> data[prev(i) + m] >= '!' && data[prev(i) + m] <= 'u' && digits[m] == data[prev(i) + m] - 33
+//@     step partial_group_only_at_the_end: !wsByte(data[prev(i)]) && data[prev(i)] != 'z' && nonWS(data, prev(i), i - prev(i)) < 5 ==> i == len(data) || (i + 1 < len(data) && data[i] == '~' && data[i+1] == '>')
 //@     step group_padding: !wsByte(data[prev(i)]) && data[prev(i)] != 'z' ==> forall k int :: {digits[k]} nonWS(data, prev(i), i - prev(i)) <= k && k < 5 ==> digits[k] == 84
 //@     step group_value_in_range: !wsByte(data[prev(i)]) && data[prev(i)] != 'z' ==> fold85(digits, 5) < 4294967296
 //@     step group_bytes: !wsByte(data[prev(i)]) && data[prev(i)] != 'z' ==> len(result) == prev(len(result)) + numBytes && (forall k int :: {result[k]} prev(len(result)) <= k && k < len(result) ==> result[k] == be32byte(fold85(digits, 5), k - prev(len(result))))
